@@ -54,6 +54,8 @@ func init() {
 					}
 				}
 			}()
+			// every per-container request must have been joined when the evaluation returns
+			run["inflight_at_return"] = fd.waitIdle(8 * time.Second)
 			st := fd.stats()
 			for k, v := range st {
 				run[k] = v
